@@ -13,9 +13,10 @@ import DitModel.Drv.Meet
 import DitModel.Drv.Maxent
 import DitModel.Drv.AuxJoint
 import DitModel.Drv.Examples
+import DitModel.Drv.SigAlg
 open Dit Dit.Drv
 
-def handlers : List (String × (J → Option J)) := basicHandlers ++ simplexHandlers ++ infoHandlers ++ opsHandlers ++ constrHandlers ++ divergeHandlers ++ pidHandlers ++ channelHandlers ++ meetHandlers ++ maxentHandlers ++ auxHandlers ++ exampleHandlers
+def handlers : List (String × (J → Option J)) := basicHandlers ++ simplexHandlers ++ infoHandlers ++ opsHandlers ++ constrHandlers ++ divergeHandlers ++ pidHandlers ++ channelHandlers ++ meetHandlers ++ maxentHandlers ++ auxHandlers ++ exampleHandlers ++ sigalgHandlers
 
 def answer (line : String) : String :=
   let line := line.trimAscii.toString
